@@ -16,7 +16,7 @@ GEN_AVOID = {"unsigned_byte"}
 
 
 # operators with several distinct damaged values: that many consecutive variants are enumerated per node
-VARIANTS = {"base64": 4, "xsliteral": 8, "wronglist": 3, "modeltype": 3, "enum": 3, "wrongtype": 3, "forbidden": 2,
+VARIANTS = {"harmless": 2, "base64": 4, "xsliteral": 8, "wronglist": 3, "modeltype": 3, "enum": 3, "wrongtype": 3, "forbidden": 2,
             "overlong": 2}
 
 
@@ -56,6 +56,8 @@ def build_sources(rng, n_gen, size_lo=2, size_hi=4):
 
 
 def serialise(fmt, doc):
+    if isinstance(doc, D.RawText):
+        return doc.data
     if fmt == "json":
         return json.dumps(doc)
     return etree.tostring(doc)
@@ -117,7 +119,7 @@ def enumerate_cases(rng, sources, budget, per_victim_nodes=None):
             for path in nodes:
                 for op in appl(d, path):
                     oid = witnesses[0][2] if witnesses else None
-                    nv = VARIANTS.get(op, 1)
+                    nv = 7 if (op == "harmless" and fmt == "json") else VARIANTS.get(op, 1)
                     base = rng.randrange(10 ** 6)
                     for v in range(nv):
                         specs.append((si, victim, tuple(witnesses), path, op, base + v, oid))
@@ -176,7 +178,9 @@ def run_spec(sources, spec):
     damaged = {victim[2]}
     if op == "dupid" and len(path) == 3:
         damaged.add(oid)
-    obs, fail = D.oracle(fmt, data, src["base"], damaged, ids)
+    if op == "harmless":
+        damaged = set()
+    obs, fail = D.oracle(fmt, data, src["base"], damaged, ids, harmless=(op == "harmless"))
     return {"obs": obs, "fail": fail, "ctx": ctx, "data": data if fail else None}
 
 
